@@ -13,6 +13,7 @@ import dns.query
 import dns.rcode
 import dns.rrset
 
+from harness.common import Hang
 from harness.oracles import Reject, walk_message
 
 PROPERTY = "C18"
@@ -288,6 +289,9 @@ class TcpSock:
         return data  # b"" = EOF
 
     def send(self, data):
+        self.calls = getattr(self, "calls", 0) + 1
+        if self.calls > 200:
+            raise Hang("send() called more than 200 times: the write loop makes no progress")
         c = self.send_script.pop(0) if self.send_script else len(data)
         if c == 0:
             raise BlockingIOError()
